@@ -1305,10 +1305,14 @@ class BaseMatcher:
                 if not m.stop and (node_max is None or m.logprob > node_max.logprob):
                     node_max = m
         else:
-            for m in self.lattice[start_idx].values_all():  # type:BaseMatching
-                if not m.stop and (node_max is None or m.obs_ne > node_max_ne or m.logprob > node_max.logprob):
-                    node_max_ne = m.obs_ne
-                    node_max = m
+            # Iterate over the layers in order (values_all is a set whose order depends on the hash seed)
+            # and prefer the deepest non-emitting layer first, then the highest probability.
+            for col_ne in self.lattice[start_idx].o:
+                for m in col_ne.values():  # type:BaseMatching
+                    if not m.stop and (node_max is None or m.obs_ne > node_max_ne or
+                                       (m.obs_ne == node_max_ne and m.logprob > node_max.logprob)):
+                        node_max_ne = m.obs_ne
+                        node_max = m
         if node_max is None:
             logger.error("Did not find a matching node for path point at index {}".format(start_idx))
             return None
